@@ -8,6 +8,7 @@ from props.codec import oracle_eq
 def run(ctx, model):
     from props import logixdrv
     logixdrv.run_reads(ctx, model, "C01")
+    logixdrv.run_mixed(ctx, model, "C01")
     from props import kernels
     kernels.run_boolwin(ctx, model, "C01")
     kernels.run_msgs(ctx, model, "C01")
